@@ -16437,36 +16437,16 @@ func (l *Lowerer) buildGlobalExprFor(
 			Components: components,
 		}), true
 
-	case *parser.BinaryExpr:
-		// A scalar constant expression (K * 2) as a constructor argument.
-		if expectedScalar == nil {
-			return 0, false
-		}
-		var sv ir.ScalarValue
-		switch expectedScalar.Kind {
-		case ir.ScalarSint, ir.ScalarUint:
-			_, val, err := l.evalConstantIntExpr(e)
-			if err != nil {
-				return 0, false
-			}
-			sv = ir.ScalarValue{Kind: expectedScalar.Kind, Bits: uint64(val)}
-		case ir.ScalarFloat:
-			val, err := l.evalConstantFloatExpr(e)
-			if err != nil || expectedScalar.Width != 4 {
-				return 0, false
-			}
-			sv = ir.ScalarValue{Kind: ir.ScalarFloat, Bits: uint64(math.Float32bits(float32(val)))}
-		default:
-			return 0, false
-		}
-		lit := literalForScalar(sv, *expectedScalar)
-		if lit == nil {
-			return 0, false
-		}
-		return addExpr(ir.Literal{Value: lit}), true
-
 	case *parser.UnaryExpr:
 		if e.Op == parser.TokenMinus {
+			// The negation of a literal is a literal (as Rust naga's constant
+			// evaluator leaves it); an ExprUnary node in GlobalExpressions is
+			// not something every backend's constant writer renders.
+			if lit, isLit := e.Operand.(*parser.Literal); isLit && !strings.HasPrefix(lit.Value, "-") {
+				neg := *lit
+				neg.Value = "-" + lit.Value
+				return l.buildGlobalExprFor(&neg, expectedType, expectedScalar, addExpr)
+			}
 			h, ok := l.buildGlobalExprFor(e.Operand, expectedType, expectedScalar, addExpr)
 			if !ok {
 				return 0, false
